@@ -503,11 +503,12 @@ def result_round_trip(ctx, r, rid):
             if v is None or v is new.defaults.get(f):
                 continue
             txt = inlined(ctx, de, v, ctx.nodes_of(de, ctx.stmt_of(de, s.node))[0]).replace('"', "'")
+            txt = txt.replace(f".get('{f}', None)", f".get('{f}')")  # dict.get's default is None
             ok = txt == f"{dp}['{f}']" or (f == "hpc_job_id" and f"{dp}.get('{f}')" in txt)
             if not ok and isinstance(v, ast.Name):
                 # a local with several definitions (the "None" string of an old file is mapped to None): each one is data.get(<f>) or None
                 defs = [n.value for n in iter_own(de.node) if isinstance(n, ast.Assign) and any(isinstance(t, ast.Name) and t.id == v.id for t in n.targets)]
-                ok = bool(defs) and all(ctx.src(d).replace('"', "'") in (f"{dp}.get('{f}')", f"{dp}['{f}']", "None") for d in defs) and any("None" != ctx.src(d) for d in defs)
+                ok = bool(defs) and all(ctx.src(d).replace('"', "'").replace(f".get('{f}', None)", f".get('{f}')") in (f"{dp}.get('{f}')", f"{dp}['{f}']", "None") for d in defs) and any("None" != ctx.src(d) for d in defs)
             r.check(ok, f"Result.{f} is read from data['{f}']", key_of(de, f"{f} from {txt}"), de.loc(s.node),
                     f"deserialize_result builds Result.{f} from `{txt}`: a row read back carries another field's value", "results of all other jobs are preserved (same name, return code, status and times)")
     if calls < 1:
